@@ -78,6 +78,45 @@ Theorem C16_leave_implies :
     s_height fr < s_height (d_mom (last (head :: rest') head)).
 Proof. exact leave_implies. Qed.
 
+(* The insert lock serialises the writers of a node (own pillar, fetcher, downloader, broadcast blocks); InsertChain
+   takes it before it reads anything. Whatever writer [w] was served first: the decisions are those for the state under
+   the lock [w st] - own momentums of THAT state (the other writer's included) are abandoned only for a batch whose first
+   unknown momentum sits on an own momentum at most 30 below the frontier under the lock, and that ends above it. *)
+Theorem C16_decides_under_lock :
+  forall (bvalid : list smom -> list blk -> blk -> bool) (mvalid : list smom -> dmom -> bool) fixed clears
+         (w : nstate -> nstate) st ds st1 r c' p',
+  insert_chain_locked bvalid mvalid fixed clears w st ds = (st1, (r, (c', p'))) ->
+  st1 = w st /\
+  (~ is_prefix (fst st1) c' ->
+   exists start head rest' fr target,
+     skip_known (fst st1) ds 0 = (start, head :: rest') /\ frontier (fst st1) = Some fr /\
+     by_height (fst st1) (u64 (s_height (d_mom head) - 1)) = Some target /\ prev_is (d_mom head) target = true /\
+     u64 (s_height fr - s_height target) <= 30 /\
+     s_height fr < s_height (d_mom (last (head :: rest') head))).
+Proof. exact decides_under_lock. Qed.
+
+(* ... in particular, when the node's own pillar produced momentums while the batch was waiting for the lock, the node
+   leaves its chain (these momentums included) only for a delivered chain ending above the last of them. *)
+Theorem C16_longer_than_own_production :
+  forall (bvalid : list smom -> list blk -> blk -> bool) (mvalid : list smom -> dmom -> bool) fixed clears
+         c p own d ds st1 r c' p',
+  insert_chain_locked bvalid mvalid fixed clears (produce_all (own ++ [d])) (c, p) ds = (st1, (r, (c', p'))) ->
+  ~ is_prefix (c ++ map d_mom (own ++ [d])) c' ->
+  exists head rest', s_height (d_mom d) < s_height (d_mom (last (head :: rest') head)) /\
+                     exists start, skip_known (c ++ map d_mom (own ++ [d])) ds 0 = (start, head :: rest').
+Proof. exact longer_than_own_production. Qed.
+
+(* ... and the order is needed: if the frontier store and the known prefix are read BEFORE the lock is taken
+   (insert_chain_stale: decisions on the snapshot, rollback and insertion on the real chain), a pillar momentum produced in
+   between makes the node leave its chain for a delivered chain that is only as long as its own. *)
+Theorem C16_read_before_lock_refuted :
+  exists bvalid mvalid c own ds c' p',
+    wf_chain c /\ own <> [] /\
+    insert_chain_stale bvalid mvalid true c (fst (produce_all own (c, []))) [] ds = (ICOk, (c', p')) /\
+    ~ is_prefix (fst (produce_all own (c, []))) c' /\
+    length c' = length (fst (produce_all own (c, []))).
+Proof. exact stale_snapshot_refuted. Qed.
+
 (* After fix 777dfea no delivered batch makes InsertChain panic (empty batch, first unknown momentum above
    frontier+1 or at height 0, any heights, any hashes) ... *)
 Theorem C16_no_panic :
@@ -125,6 +164,10 @@ Example C16_pooled_block_skipped_example :
   insert_chain (fun _ _ _ => false) all_m true true ex_local [b77] [mkD (mkS 6 5 6) [b77]] =
   (ICOk, (ex_local ++ [mkS 6 5 6], [])).
 Proof. vm_compute. reflexivity. Qed.
+Example C16_under_lock_example :
+  insert_chain_locked all_b all_m true true (produce_all ex_own) (ex_local, []) ex_side =
+  ((ex_local ++ [mkS 6 5 6], []), (ICErr 0 ENotLonger, (ex_local ++ [mkS 6 5 6], []))).
+Proof. exact locked_example. Qed.
 Example C16_pool_dropped_example :
   insert_chain ex_ack5 all_m true true ex_local [b77] ex_side77 =
   (ICErr 1 EInvalid, ([mkS 1 0 1; mkS 2 1 2; mkS 13 2 3], [])).
